@@ -81,6 +81,25 @@ def schemas(quick):
         out[f'multi-inh/{kind}'] = (
             sdl, {'default::Thing': {'MK_Owned'},
                   'default::Owned': {'MK_Owned'}})
+    # compound-typed paths: union link targets (disjoint and overlapping
+    # through a common descendant), bare backlinks; policy on a member, on
+    # a descendant of a member only, on the common descendant
+    for place in ('A', 'A2', 'C'):
+        pol = KINDS['allow-select'].format(c=cond('MK_' + place))
+        d = dict(A='', A2='', C='')
+        d[place] = pol
+        sdl = '''
+          type A { name: str; %(A)s }
+          type A2 extending A { a2: str; %(A2)s }
+          type B { name: str; }
+          type C extending A, B { c: str; %(C)s }
+          type H { multi items: A | B; one: A | B; multi bs: B; }
+          type H2 extending H;
+          type K { multi items: A; }
+        ''' % d
+        prot = {'A': ['A', 'A2', 'C'], 'A2': ['A2'], 'C': ['C']}[place]
+        out[f'union/{place}'] = (
+            sdl, {'default::' + t: {'MK_' + place} for t in prot})
     # policies of other types read a protected type through alias / global
     pol = KINDS['allow-select'].format(c=cond('MK_Doc'))
     sdl = '''
@@ -170,6 +189,21 @@ QUERIES = {
         'for h in Holder union h.items', 'select Named filter .name = "a"',
         'select Thing.<items[is Holder]', 'select Object',
         'select count(Object)', 'select Named union Owned',
+    ],
+    'union': [
+        'select A', 'select B', 'select C', 'select H.items', 'select H.one',
+        'select H { items }', 'select H { items: { name } }',
+        'select H.items.name', 'select count(H.items)', 'select H.bs',
+        'select H.items[is A2]', 'select H.items[is C].c',
+        'select H.items[is B]', 'select H2.items', 'select H2 { one }',
+        'select A.<items', 'select A2.<items', 'select C.<items',
+        'select B.<bs', 'select A.<items[is K]', 'select K.items',
+        'select (select H limit 1).items', 'for h in H union h.items',
+        'select A2 union B', 'select {A, B}', 'select (A union B).name',
+        'select A[is B]', 'select B[is A]', 'select Object',
+        'select count(Object)', 'select H.one ?? H.items',
+        'select (H.one, count(B))', 'select H filter exists .items',
+        'with x := H.items select x { name }',
     ],
     'policy-reads-protected': [
         'select Doc', 'select AllDocs', 'select Folder', 'select Shelf',
